@@ -182,7 +182,9 @@ class TlcResult:
 
 def tlc(module, cfg, env=None, workers=1, timeout=1800, xmx="4g", simulate=None, extra=(), depth_first=False):
     meta = tempfile.mkdtemp(prefix="tlc.", dir=scratch())
-    jopts = ["-XX:+UseParallelGC", "-Xss64m", "-Xmx" + xmx]
+    # TLC unpacks its standard modules into a fresh directory under java.io.tmpdir on every start and leaves it there:
+    # point it at the run's own scratch directory, which is removed afterwards
+    jopts = ["-XX:+UseParallelGC", "-Xss64m", "-Xmx" + xmx, "-Djava.io.tmpdir=" + meta]
     if depth_first:
         jopts.append("-Dtlc2.tool.queue.IStateQueue=StateDeque")
     cmd = ["java"] + jopts + ["-cp", TLC_JAR, "tlc2.TLC", "-workers", str(workers), "-metadir", meta,
